@@ -1,0 +1,71 @@
+//go:build verif
+// +build verif
+
+package fs
+
+// Verification hooks (add-only, compiled only with the build tag "verif").
+// Thin accessors: construct ModKey values for a scripted FS, and read the
+// watch-mode bookkeeping of a real FS.
+
+import "sort"
+
+// VerifModKeyUnusable is the sentinel error "ModKey" returns when the
+// modification time cannot be trusted.
+var VerifModKeyUnusable = modKeyUnusable
+
+// VerifMakeModKey builds a ModKey from its components.
+func VerifMakeModKey(inode uint64, size int64, mtimeSec int64, mtimeNsec int64, mode uint32, uid uint32) ModKey {
+	return ModKey{inode: inode, size: size, mtime_sec: mtimeSec, mtime_nsec: mtimeNsec, mode: mode, uid: uid}
+}
+
+// VerifModKeyParts returns the components of a ModKey.
+func VerifModKeyParts(k ModKey) (inode uint64, size int64, mtimeSec int64, mtimeNsec int64, mode uint32, uid uint32) {
+	return k.inode, k.size, k.mtime_sec, k.mtime_nsec, k.mode, k.uid
+}
+
+// VerifWatchEntry is a copy of one privateWatchData record.
+type VerifWatchEntry struct {
+	Path         string
+	State        uint8 // watchState as declared in fs_real.go
+	HasAccessed  bool
+	WasPresent   map[string]bool
+	AllEntries   []string
+	HasAll       bool
+	FileContents string
+	ModKey       ModKey
+}
+
+// VerifWatchStates returns a copy of the watch data recorded so far by a
+// real FS (unwrapping the zip layer), sorted by path. It does not call
+// WatchData() and therefore does not resolve "stateFileNeedModKey".
+func VerifWatchStates(f FS) []VerifWatchEntry {
+	if z, ok := f.(*zipFS); ok {
+		f = z.inner
+	}
+	r, ok := f.(*realFS)
+	if !ok {
+		return nil
+	}
+	r.watchMutex.Lock()
+	defer r.watchMutex.Unlock()
+	out := make([]VerifWatchEntry, 0, len(r.watchData))
+	for path, data := range r.watchData {
+		e := VerifWatchEntry{Path: path, State: uint8(data.state), FileContents: data.fileContents, ModKey: data.modKey}
+		if a := data.accessedEntries; a != nil {
+			a.mutex.Lock()
+			e.HasAccessed = true
+			e.WasPresent = make(map[string]bool, len(a.wasPresent))
+			for k, v := range a.wasPresent {
+				e.WasPresent[k] = v
+			}
+			if a.allEntries != nil {
+				e.HasAll = true
+				e.AllEntries = append([]string{}, a.allEntries...)
+			}
+			a.mutex.Unlock()
+		}
+		out = append(out, e)
+	}
+	sort.Slice(out, func(i, j int) bool { return out[i].Path < out[j].Path })
+	return out
+}
